@@ -572,7 +572,7 @@ func hasCompositeVar(e *pexpr) bool {
 		return false
 	}
 	switch e.K {
-	case "var", "call":
+	case "var", "call", "bcall":
 		return e.T.K == "arr" || e.T.K == "map"
 	case "loopvar":
 		rng := e.Args[0]
@@ -616,7 +616,7 @@ func hasEmptyRepeat(e *pexpr) bool {
 
 // pexpr mirrors TypesSyntax.expr
 type pexpr struct {
-	K    string // n s b var call arr map bin neg not group index slice dot assert
+	K    string // n s b var call bcall (built-in call: Op = name, Args = arguments) src (literal source text, argument of bcall only) arr map bin neg not group index slice dot assert
 	T    *sty
 	Op   string
 	Args []*pexpr // operands; for slice: left, start, end (nil = omitted)
@@ -672,6 +672,8 @@ func (e *pexpr) sx() string {
 		return e.K
 	case "var", "call":
 		return "(" + e.K + " " + e.T.sx() + ")"
+	case "bcall":
+		return "(bcall \"" + e.Op + "\")" // the model resolves the result type from the regenerated built-in table
 	case "bin":
 		return "(bin " + e.Op + " " + e.Args[0].sx() + " " + e.Args[1].sx() + ")"
 	case "assert":
@@ -733,6 +735,14 @@ func (pb *progBuilder) render(e *pexpr) string {
 		name := fmt.Sprintf("c%d", pb.nvar)
 		pb.pre = append(pb.pre, "func "+name+":"+e.T.src(), "    return "+zeroLit(e.T), "end")
 		return name
+	case "src":
+		return e.Op
+	case "bcall":
+		parts := []string{e.Op}
+		for _, a := range e.Args {
+			parts = append(parts, pb.render(a))
+		}
+		return strings.Join(parts, " ")
 	case "arr":
 		parts := make([]string, len(e.Args))
 		for i, a := range e.Args {
@@ -1312,6 +1322,16 @@ func c04Family(symptom, why, form string, e *pexpr, shown string) string {
 	if symptom == "typeof" && (strings.HasSuffix(shown, "[]") || strings.HasSuffix(shown, "{}")) {
 		return "untyped-empty-leaks-into-typeof"
 	}
+	// a built-in call result of basic type inside a literal, and one of composite type two literal levels down,
+	// are the same unchanged-tree defect as the variable in that place (finding (f)); every other built-in call
+	// form keeps its own key
+	switch form {
+	case "literal-with-builtin-call-basic", "literal-with-nested-builtin-call-basic",
+		"literal-same-literal-then-builtin-call-basic", "literal-builtin-call-then-same-literal-basic":
+		form = "literal-with-basic-variable"
+	case "literal-with-nested-builtin-call-composite":
+		form = "literal-with-nested-composite-variable"
+	}
 	mixed := map[string]bool{"literal-variable-other-literal": true, "literal-then-variable": true, "variable-then-literal": true}
 	withVar := map[string]bool{"literal-with-basic-variable": true, "literal-with-nested-composite-variable": true, "literal-with-composite-variable": true}
 	switch symptom {
@@ -1423,6 +1443,7 @@ func runC04(cfg Config, r *Result) {
 	c04Targets(cfg, r, model, spec)
 	c04LoopVars(cfg, r, model, spec)
 	c04RangeForms(cfg, r, model, spec)
+	c04BuiltinCalls(cfg, r, model, spec)
 	r.Exhaustive = true
 	ks := make([]string, 0, len(c04Keys))
 	for k, n := range c04Keys {
